@@ -81,6 +81,9 @@ class Variant:
         return [self.prog.rel(n) for n in names]
 
 
+NAMED_CONSTS = ' '.join('pub const VC%d: i32 = %d;' % (i, i) for i in range(8))     # bare-identifier constants for aggregated / negated clauses
+
+
 def emit_variant(v):
     prog = v.prog
     macro = MACRO_OF[v.kind]
@@ -93,6 +96,7 @@ def emit_variant(v):
     out.append('   use ascent::{ascent, ascent_par, ascent_run, ascent_run_par, ascent_source};')
     out.append('   use ascent::Dual;')
     out.append('   use ascent_byods_rels::{eqrel, trrel, trrel_uf};')
+    out.append('   ' + NAMED_CONSTS)
     if v.prelude:
         out.append(v.prelude)
     if v.pre_items:
